@@ -8,7 +8,8 @@ RULE = ("tiebreak strings = comma-joined words over the 8 names, letter-case var
         "blanks, U+212A/U+0130/U+017F look-alikes (quick: random lists of 0..9 words; thorough: additionally EVERY list "
         "of <= 4 words over the 8 names + 2 junk words, every list of 5 and of 6 words over the 8 names and every list of <= 3 words "
         "over the names spelled lower/UPPER/Capitalized), no option, "
-        "RankBuilder::default, single-word parse_criteria, engine stream (exact/regex/fuzzy/all engines on short texts with "
+        "RankBuilder::default, single-word parse_criteria, engine stream (exact/regex/fuzzy/all engines, and the engines the ExactOrFuzzy / Regex factories build for "
+        "terms with ' ^ ! $ in both exact modes, on short texts with "
         "multi-byte characters, built with the configured and with a probe rank builder); tuples = probe (1,2,3,4) + random (score,begin,end,length) "
         "drawn from small pools so that ties on 1..3 leading criteria are frequent, plus i32/usize boundary values; "
         "non-trivial = a builder case with >= 2 tuples of which two adjacent ones differ, or an engine case with non-empty text and query; distinct by sha1 of the case line")
@@ -116,6 +117,13 @@ def engine_case(rng):
         # the regex engine with an expression that does not compile (matches everything at (0,0)): the tuple it feeds must
         # still carry the item's length
         return "e;%s;regexbad;%s;%s|" % (opt(rtiebreak(rng)), enc(rng.choice(["(", "[a", "a(", "*a", "a{2"])), enc(text))
+    if rng.random() < 0.3:
+        # through the engine factories, as Model::new builds them: the prefix / suffix characters of the term choose the engine
+        # (exact, inverse, anchored, fuzzy), and every one of them must carry the configured builder
+        kind = rng.choice(["fx0", "fx1", "fx1", "frx"])
+        if kind != "frx":
+            q = rng.choice(["", "", "'", "'", "^", "!", "'^", "!'"]) + q + rng.choice(["", "", "$"])
+        return "e;%s;%s;%s;%s|" % (opt(rtiebreak(rng)), kind, enc(q), enc(text))
     return "e;%s;%s;%s;%s|" % (opt(rtiebreak(rng)), rng.choice(ENGINES), enc(q), enc(text))
 
 
